@@ -20,7 +20,7 @@ def desc(c):
         return '%s %d elements chunking=%s export=%d' % (c['family'], c['len'], c['chunking'], c['export'])
     if c['kind'] == 'merkle':
         return 'merkle proof leaves=%d index=%d' % (c['leaves'], c['index'])
-    return 'fiat-shamir transcript challenges=%d bindings=%d' % (c['challenges'], c['bindings'])
+    return 'fiat-shamir transcript challenges=%d bindings=%d%s' % (c['challenges'], c['bindings'], ' shared-hasher-in-use' if c.get('dirty') else '')
 
 
 def sig(c):
@@ -43,7 +43,7 @@ def run(ctx):
     ]
     r = ctx.tlc('HashFraming', 'HashFraming.cfg', workers=1, timeout=1800)
     cases = r.beh
-    if len(cases) < 1400:
+    if len(cases) < 1500:
         raise vlib.Infra('HashFraming produced %d cases' % len(cases))
     for i, c in enumerate(cases):
         c['id'] = i
